@@ -109,6 +109,22 @@ impl Mempool {
             "add transaction if validates : {:?}",
             transaction.signature.to_hex()
         );
+        // only user-originated transactions enter the pool: fee, rebroadcast, issuance and
+        // SPV transactions are produced by consensus code and skip the signature checks
+        // (issuance transactions only while the genesis block is being assembled)
+        let accepted_type = match transaction.transaction_type {
+            TransactionType::Normal | TransactionType::Bound | TransactionType::BlockStake => true,
+            TransactionType::Issuance => blockchain.blocks.is_empty(),
+            _ => false,
+        };
+        if !accepted_type {
+            debug!(
+                "transaction type {:?} is not accepted into the mempool : {:?}",
+                transaction.transaction_type,
+                transaction.signature.to_hex()
+            );
+            return;
+        }
         let public_key;
         let tx_valid;
         {
